@@ -399,14 +399,17 @@ def identical_method(dt, kind):
 
 
 @harness(props=["C07", "C03"], strength="B",
-         family=lambda t, s: [{"k": k, "ranges": r, "inverse": False} for k in ((1, 2, 3) if t == "quick" else (1, 2, 3, 4))
-                              for r in (False, True)] + [{"k": 2, "ranges": True, "inverse": True}],
+         family=lambda t, s: [{"k": k, "ranges": r, "inverse": False, "upper_kind": "CLOSED"}
+                              for k in ((1, 2, 3) if t == "quick" else (1, 2, 3, 4)) for r in (False, True)] +
+         [{"k": 2, "ranges": True, "inverse": True, "upper_kind": "CLOSED"}] +
+         # the two limits of a scale carry the same value, the upper one is open / unbounded
+         [{"k": 1, "ranges": False, "inverse": False, "upper_kind": u} for u in ("OPEN", "INFINITE")],
          bound="text tables of 1..3 (quick) / 1..4 (thorough) scales; limits and values symbolic integers, texts distinct",
          functions=[TexttableCompuMethod.__post_init__, TexttableCompuMethod.convert_internal_to_physical,
                     TexttableCompuMethod.convert_physical_to_internal, TexttableCompuMethod.is_valid_internal_value,
                     TexttableCompuMethod.is_valid_physical_value, CompuScale.applies],
          covers=["valid", "invalid"], crosscheck=False)
-def texttable_method(k, ranges, inverse):
+def texttable_method(k, ranges, inverse, upper_kind):
     """TEXTTABLE: internal->physical = text of the scale containing the value; valid iff some scale contains it; each
     text converts without error to a value of its own scale, so text -> internal -> text is the identity"""
     los = [H.int(f"lo{i}") for i in range(k)]
@@ -423,7 +426,7 @@ def texttable_method(k, ranges, inverse):
                          lower_limit=Limit(value_raw=str(los[i]), value_type=DataType.A_UINT32,
                                            interval_type=IntervalType.CLOSED),
                          upper_limit=Limit(value_raw=str(his[i]), value_type=DataType.A_UINT32,
-                                           interval_type=IntervalType.CLOSED),
+                                           interval_type=IntervalType[upper_kind]),
                          compu_inverse_value=None if not inverse else CompuConst(v=str(invs[i]), vt=None,
                                                                                  data_type=DataType.A_INT32),
                          compu_const=CompuConst(v=None, vt=f"text{i}",
@@ -436,8 +439,14 @@ def texttable_method(k, ranges, inverse):
                               compu_phys_to_internal=None, physical_type=DataType.A_UNICODE2STRING,
                               internal_type=DataType.A_UINT32)
     x = H.int("x")
-    inside = [H.And(los[i] <= x, x <= his[i]) for i in range(k)]
+    inside = [H.And(los[i] <= x, (x <= his[i]) if upper_kind == "CLOSED" else
+                    ((x < his[i]) if upper_kind == "OPEN" else True)) for i in range(k)]
     H.check("C07:internal-validity-is-membership-in-some-scale", H.eq(cm.is_valid_internal_value(x), H.Or(inside)))
+    if upper_kind != "CLOSED":
+        # (the rest of the contract is stated for tables of closed scales)
+        H.cover("valid")
+        H.cover("invalid")
+        return
     try:
         t = cm.convert_internal_to_physical(x)
     except DecodeError:
@@ -526,3 +535,57 @@ def scales_are_parsed_with_the_types_of_their_direction(direction):
             H.And(sc.domain_type == dom, sc.range_type == rng))
     H.check("C07:limits-are-parsed-as-values-of-the-domain-type",
             H.And(sc.lower_limit.value == 0.5, sc.upper_limit.value == 7.5))
+
+
+# ------------------------------------------------------------------------------------------------- SCALE-RAT-FUNC
+# internal -> physical: the rational function of the first scale whose interval contains the value - a function of the
+# value only, whatever the object was asked before
+from odxtools.compumethods.scaleratfunccompumethod import ScaleRatFuncCompuMethod  # noqa: E402
+
+
+@harness(props=["C07", "C03"], strength="B", family=lambda t, s: [{"history": h} for h in (False, True)],
+         bound="two scales with linear numerators and no denominator sharing a closed boundary; coefficients, limits "
+         "and values symbolic reals/integers",
+         functions=[ScaleRatFuncCompuMethod.__post_init__, ScaleRatFuncCompuMethod.convert_internal_to_physical,
+                    ScaleRatFuncCompuMethod.is_valid_internal_value, RatFuncSegment.convert, RatFuncSegment.applies],
+         covers=["valid", "invalid"], assumes=["A-float"], crosscheck=False)
+def scale_rat_func_method(history):
+    """SCALE-RAT-FUNC: value of the first scale whose interval contains x; valid iff some interval contains x"""
+    bounds = [H.int(f"b{i}") for i in range(3)]
+    H.assume(H.And(bounds[0] < bounds[1], bounds[1] < bounds[2]))
+    coeffs, scales = [], []
+    for i in range(2):
+        c0, c1 = H.real(f"c0_{i}"), H.real(f"c1_{i}")
+        coeffs.append((c0, c1))
+        scales.append(CompuScale(
+            short_label=None, description=None,
+            lower_limit=Limit(value_raw=str(bounds[i]), value_type=DataType.A_INT32, interval_type=IntervalType.CLOSED),
+            upper_limit=Limit(value_raw=str(bounds[i + 1]), value_type=DataType.A_INT32,
+                              interval_type=IntervalType.CLOSED),
+            compu_inverse_value=None, compu_const=None,
+            compu_rational_coeffs=CompuRationalCoeffs(value_type=DataType.A_FLOAT64, numerators=[c0, c1],
+                                                      denominators=[]),
+            domain_type=DataType.A_INT32, range_type=DataType.A_FLOAT64))
+    cm = ScaleRatFuncCompuMethod(category=CompuCategory.SCALE_RAT_FUNC,
+                                 compu_internal_to_phys=CompuInternalToPhys(compu_scales=scales, prog_code=None,
+                                                                            compu_default_value=None),
+                                 compu_phys_to_internal=None, physical_type=DataType.A_FLOAT64,
+                                 internal_type=DataType.A_INT32)
+    x = H.int("x")
+    inside = [H.And(bounds[i] <= x, x <= bounds[i + 1]) for i in range(2)]
+    H.check("C07:internal-validity-is-membership-in-some-scale", H.eq(cm.is_valid_internal_value(x), H.Or(inside)))
+    if history:
+        try:
+            cm.convert_internal_to_physical(H.int("x_before"))
+        except OdxError:
+            pass
+    try:
+        y = cm.convert_internal_to_physical(x)
+    except OdxError:
+        H.cover("invalid")
+        H.check("C07:only-invalid-internal-values-are-rejected", H.Not(H.Or(inside)))
+        return
+    H.cover("valid")
+    H.check("C07:only-invalid-internal-values-are-rejected", H.Or(inside))
+    exact = H.ite(inside[0], coeffs[0][0] + coeffs[0][1] * x, coeffs[1][0] + coeffs[1][1] * x)
+    H.check("C07:physical-value-is-the-formula-of-the-first-applicable-scale", y == exact)
